@@ -29,17 +29,19 @@ Null == 99
 C == "C"
 VARIABLES flag, lock, head, tail, next,       \* slots and the MPSC queue
           dw, cell,                           \* DiatomicWaker: [N, L, R, U, I] and the two waker cells (0 = empty)
-          occ, needs, handed,                 \* children: slot occupied / owed a poll / a waker exists
+          occ, needs, handed, polled,         \* children: slot occupied / owed a poll / a waker of the slot exists (possibly a
+                                              \* stale one of an earlier occupant) / the current occupant has been polled
           woken, lastRes, pw,                 \* task wakers invoked since the poll began; result and waker of the last poll
           ppc, pslot, pprev, pwakes, pst,     \* producers
           cpc, cnt, ct, cnx, cprev, cpolls, cpush, cpslot, cst, cidx   \* the owner
-vars == <<flag, lock, head, tail, next, dw, cell, occ, needs, handed, woken, lastRes, pw,
+vars == <<flag, lock, head, tail, next, dw, cell, occ, needs, handed, polled, woken, lastRes, pw,
           ppc, pslot, pprev, pwakes, pst, cpc, cnt, ct, cnx, cprev, cpolls, cpush, cpslot, cst, cidx>>
 
 Init == /\ flag = [s \in Slots |-> FALSE] /\ lock = [s \in Slots |-> "free"]
         /\ head = Stub /\ tail = Stub /\ next = [n \in Nodes |-> Null]
         /\ dw = [N |-> FALSE, L |-> FALSE, R |-> FALSE, U |-> FALSE, I |-> 0] /\ cell = <<0, 0>>
         /\ occ = [s \in Slots |-> FALSE] /\ needs = [s \in Slots |-> FALSE] /\ handed = [s \in Slots |-> FALSE]
+        /\ polled = [s \in Slots |-> FALSE]
         /\ woken = {} /\ lastRes = "init" /\ pw = 0
         /\ ppc = [p \in Producers |-> "w0"] /\ pslot = [p \in Producers |-> 0] /\ pprev = [p \in Producers |-> Null]
         /\ pwakes = [p \in Producers |-> 0] /\ pst = [p \in Producers |-> dw]
@@ -50,7 +52,7 @@ PU == <<ppc, pslot, pprev, pwakes, pst>>
 CU == <<cpc, cnt, ct, cnx, cprev, cpolls, cpush, cpslot, cst, cidx>>
 Q  == <<head, tail, next>>
 DW == <<dw, cell>>
-CH == <<occ, needs, handed>>
+CH == <<occ, needs, handed, polled>>
 TW == <<woken, lastRes, pw>>
 
 \* ---------------- DiatomicWaker transition tables ----------------
@@ -68,9 +70,10 @@ TryUnlock(s) ==
 PSet(p, l) == ppc' = [ppc EXCEPT ![p] = l]
 W0(p) == /\ ppc[p] = "w0" /\ pwakes[p] < MaxWakes
          /\ \E s \in Slots : handed[s] /\ pslot' = [pslot EXCEPT ![p] = s]
-              /\ needs' = IF occ[s] THEN [needs EXCEPT ![s] = TRUE] ELSE needs
+              \* only a waker that was handed to the CURRENT occupant creates an obligation (a stale one does not)
+              /\ needs' = IF occ[s] /\ polled[s] THEN [needs EXCEPT ![s] = TRUE] ELSE needs
          /\ pwakes' = [pwakes EXCEPT ![p] = @ + 1]
-         /\ PSet(p, "w1") /\ UNCHANGED <<flag, lock, Q, DW, occ, handed, TW, pprev, pst, CU>>
+         /\ PSet(p, "w1") /\ UNCHANGED <<flag, lock, Q, DW, occ, handed, polled, TW, pprev, pst, CU>>
 W1(p) == /\ ppc[p] = "w1" /\ lock[pslot[p]] = "free"
          /\ lock' = [lock EXCEPT ![pslot[p]] = p] /\ PSet(p, "w2")
          /\ UNCHANGED <<flag, Q, DW, CH, TW, pslot, pprev, pwakes, pst, CU>>
@@ -109,7 +112,7 @@ Producer(p) == W0(p) \/ W1(p) \/ W2(p) \/ W3(p) \/ W4(p) \/ W5(p) \/ N1(p) \/ N2
 \* push a new child into a free slot: lock, swap flag, enqueue (3 steps), no notify
 CPush0 == /\ cpc = "idle" /\ cpush < MaxPush
           /\ \E s \in Slots : ~occ[s] /\ cpslot' = s /\ occ' = [occ EXCEPT ![s] = TRUE]
-               /\ needs' = [needs EXCEPT ![s] = FALSE]
+               /\ needs' = [needs EXCEPT ![s] = FALSE] /\ polled' = [polled EXCEPT ![s] = FALSE]
           /\ cpush' = cpush + 1 /\ cpc' = "p1"
           /\ UNCHANGED <<flag, lock, Q, DW, handed, TW, PU, cnt, ct, cnx, cprev, cpolls, cst, cidx>>
 CPush1 == /\ cpc = "p1" /\ lock[cpslot] = "free" /\ lock' = [lock EXCEPT ![cpslot] = C] /\ cpc' = "p2"
@@ -131,8 +134,8 @@ PollBegin == /\ cpc = "idle" /\ cpolls < MaxPolls /\ cpolls' = cpolls + 1
                   THEN lastRes' = "None" /\ UNCHANGED <<cpc, cnt, woken, needs, pw>>
                   ELSE /\ cpc' = (IF Mut = "register_after_drain" THEN "loop" ELSE "r1") /\ cnt' = 0
                        /\ woken' = {} /\ lastRes' = "inpoll" /\ pw' = w
-                       /\ needs' = [s \in Slots |-> needs[s] \/ (occ[s] /\ ~handed[s])]
-             /\ UNCHANGED <<flag, lock, Q, DW, occ, handed, PU, ct, cnx, cprev, cpush, cpslot, cst, cidx>>
+                       /\ needs' = [s \in Slots |-> needs[s] \/ (occ[s] /\ ~polled[s])]
+             /\ UNCHANGED <<flag, lock, Q, DW, occ, handed, polled, PU, ct, cnx, cprev, cpush, cpslot, cst, cidx>>
 AfterReg == IF Mut = "register_after_drain" THEN "retp" ELSE "loop"
 \* register: load the state
 R1 == /\ cpc = "r1" /\ cst' = dw /\ cpc' = "r2"
@@ -194,7 +197,7 @@ Got == /\ cpc = "got" /\ lock[ct] = "free"
 \* a wake may arrive in between and must buy another poll
 ChildIn == /\ cpc = "child"
            /\ IF ~occ[ct] THEN cpc' = (IF Mut = "clear_after_poll" THEN "childout" ELSE "loop") /\ UNCHANGED CH
-              ELSE /\ handed' = [handed EXCEPT ![ct] = TRUE]
+              ELSE /\ handed' = [handed EXCEPT ![ct] = TRUE] /\ polled' = [polled EXCEPT ![ct] = TRUE]
                    /\ needs' = [needs EXCEPT ![ct] = FALSE]
                    /\ cpc' = "childout" /\ UNCHANGED occ
            /\ UNCHANGED <<flag, lock, Q, DW, TW, PU, cnt, ct, cnx, cprev, cpolls, cpush, cpslot, cst, cidx>>
@@ -203,7 +206,7 @@ ChildOut == /\ cpc = "childout"
             /\ IF ~occ[ct] THEN cpc' = "loop" /\ UNCHANGED <<occ, TW>>
                ELSE \/ cpc' = "loop" /\ UNCHANGED <<occ, TW>>
                     \/ occ' = [occ EXCEPT ![ct] = FALSE] /\ Ret("Yield", FALSE)
-            /\ UNCHANGED <<lock, Q, DW, needs, handed, PU, cnt, ct, cnx, cprev, cpolls, cpush, cpslot, cst, cidx>>
+            /\ UNCHANGED <<lock, Q, DW, needs, handed, polled, PU, cnt, ct, cnx, cprev, cpolls, cpush, cpslot, cst, cidx>>
 Consumer == CPush0 \/ CPush1 \/ CPush2 \/ CPush4 \/ CPush5 \/ CPush6 \/ PollBegin \/ R1 \/ R2 \/ R4 \/ R5 \/ RetP \/ Loop
             \/ D1 \/ D2 \/ D3 \/ D5 \/ D5a \/ D5b \/ D6 \/ Got \/ ChildIn \/ ChildOut
 Next == Consumer \/ \E p \in Producers : Producer(p)
